@@ -4,9 +4,9 @@ PROP = {
             "(unit-test corpus, corner trees, random trees with depth/fan-out/empty files/empty dirs/one-byte files/unicode names, files of several "
             "32 KiB buffers) with independent random read sizes and write segmentations; all subsets of the interesting cut positions and every "
             "single cut for tiny trees; files shrunk/grown between scan and read; explicit entries with odd announced sizes; damaged and hand-made "
-            "writer streams; NAMES: the real checkFileName on every BMP code point (alone, inside a name, after a dot), samples and look-alikes above the BMP, invalid values, against anm_valid; tree names include code points whose low byte / UTF-16 high byte is a separator, dot or NUL; STREAM AS A SOURCE FILE: real sendCompressFlag on archive readers of announced sizes 0..3 MiB (128 KiB +-1) x protocol x compress type x binary against amo_compress, whole transfers of trees whose stream is exactly 127/128/129/200/600 KiB with compress auto/yes/no in process and through the binaries; WHO DECIDES ARCHIVE: roots with zero / exactly one (file, empty file, empty directory) / chained / many entries and sets of several roots with plain files, under protocol 2-5 and overwrite on/off - real scan, archiveSourceFiles, NAME record, sender's and receiver's next step against amo_plan; whole transfers real sendFiles vs real recvFiles in process and a few through the real binaries (destination tree = source tree); every caller buffer is ONE reused array scribbled over between calls (reader: before each Read; writer: after each writeAll), and one write per tree goes through io.CopyBuffer into a bufio.Writer with independent sizes; non-trivial = more than one entry is read, or a write segmentation cuts inside a header or exactly at an entry/header "
+            "writer streams; HEADER CODEC: 24 shapes of highly compressible headers (nested node_modules to depth 64, runs of one character up to 255 bytes, one name on 60 levels, 1000 components, 64 names of 255 bytes, JSON-escaped names, controls) through real encode -> decode (ahdr_ok), on disk through the whole archive round trip, and as whole transfers; SHRINKING: every file of a fixed tree shortened to zero / by one / to half before the read and to zero in the middle of it; NAMES: the real checkFileName on every BMP code point (alone, inside a name, after a dot), samples and look-alikes above the BMP, invalid values, against anm_valid; tree names include code points whose low byte / UTF-16 high byte is a separator, dot or NUL; STREAM AS A SOURCE FILE: real sendCompressFlag on archive readers of announced sizes 0..3 MiB (128 KiB +-1) x protocol x compress type x binary against amo_compress, whole transfers of trees whose stream is exactly 127/128/129/200/600 KiB with compress auto/yes/no in process and through the binaries; WHO DECIDES ARCHIVE: roots with zero / exactly one (file, empty file, empty directory) / chained / many entries and sets of several roots with plain files, under protocol 2-5 and overwrite on/off - real scan, archiveSourceFiles, NAME record, sender's and receiver's next step against amo_plan; whole transfers real sendFiles vs real recvFiles in process and a few through the real binaries (destination tree = source tree); every caller buffer is ONE reused array scribbled over between calls (reader: before each Read; writer: after each writeAll), and one write per tree goes through io.CopyBuffer into a bufio.Writer with independent sizes; non-trivial = more than one entry is read, or a write segmentation cuts inside a header or exactly at an entry/header "
             "boundary, or the case belongs to the size/shrink/damaged-stream families; distinct = distinct input line",
-    "trusted": ["modelled, not verified: zlib+base64+JSON coding of the header line (abstract hdr/parse with parse(hdr m) = m and no newline in hdr m; "
+    "trusted": ["modelled, not verified: zlib+base64+JSON coding of the header line (abstract hdr/parse with parse(hdr m) = m and no newline in hdr m, for the entries at hand; the compression ratio length(json)/length(header) is UNBOUNDED in this hypothesis, and it is tied to the code by evaluating its boolean form (C15_header_tie) on the real encoder's and decoder's results, including strata of headers that compress 4:1 ... 100:1 and paths up to 16 KB; "
                 "the harness passes the real header strings as the lookup table), the file system (abstract tree: MkdirAll / O_CREATE|O_TRUNC semantics), "
                 "os.File.Read on a regular file returning min(len, rest) bytes",
                 "not modelled: permissions, filepath.Join cleaning of odd names (C09), Close/Write errors of the destination file"],
